@@ -229,7 +229,14 @@ func init() {
 		Harnesses: []harnessSpec{
 			{Pkg: "amf0", Func: "HarnessC07_Amf0", Stall: true, Labels: []string{"c07-amf0", "c07-amf0-accepted"}, Bound: "every byte string of 0..10 bytes (thorough 0..13) through Discovery+UnmarshalBinary and through each concrete type's decoder"},
 			{Pkg: "amf0", Func: "HarnessC07_Amf0Truncated", Stall: true, Labels: []string{"c07-amf0-trunc", "c07-amf0-trunc-accepted"}, Bound: "encodings of a container (object/ECMA/strict) nested in a container, with 4 kinds of leaf and an optional sibling, cut at every offset"},
-			{Pkg: "amf0", Func: "HarnessC07_Amf0Linear", Steps: 200000000, NoValidate: true, Labels: []string{"c07-amf0-linear"}, Bound: "linear-time clause, AMF0: objects / ECMA arrays / strict arrays nested 16, 32, 64 deep and one object with 16, 32, 64 properties (leaf number symbolic); cost = SSA instructions interpreted + elements copied; cost(4n)-cost(2n) <= 2.5 (cost(2n)-cost(n)); native confirmation of a counterexample by wall time at a size where one decode takes milliseconds (cost(4n) <= 9 cost(n))"},
+			{Pkg: "amf0", Func: "HarnessC07_Amf0Linear", Steps: 200000000, NoValidate: true, Labels: []string{"c07-amf0-linear"}, Bound: "linear-time clause, AMF0: objects / ECMA arrays / strict arrays nested 32, 64, 128 deep and one object with 32, 64, 128 properties (leaf number symbolic); cost = SSA instructions interpreted + elements copied; cost(4n)-cost(2n) <= 2.5 (cost(2n)-cost(n)); native confirmation of a counterexample by wall time at a size where one decode takes milliseconds (cost(4n) <= 9 cost(n))"},
+			{Pkg: "rtmp", Func: "HarnessC07_RtmpLinear", Steps: 200000000, NoValidate: true, Labels: []string{"c07-rtmp-linear"}, Bound: "linear-time clause, RTMP chunk reader: one message of 32/64/128 chunks (chunk size 1-2), 32/64/128 single-chunk messages with fmt 0-3 headers on one chunk stream, 32/64/128 messages on as many chunk streams"},
+			{Pkg: "flv", Func: "HarnessC07_FlvLinear", Steps: 200000000, NoValidate: true, Labels: []string{"c07-flv-linear"}, Bound: "linear-time clause, FLV: a file of 48/96/192 tags; one audio / video tag body of 48/96/192 bytes"},
+			{Pkg: "aac", Func: "HarnessC07_AacLinear", Steps: 200000000, NoValidate: true, Labels: []string{"c07-aac-linear"}, Bound: "linear-time clause, ADTS: a stream of 48/96/192 frames; one frame with 48/96/192 payload bytes"},
+			{Pkg: "avc", Func: "HarnessC07_AvcLinear", Steps: 200000000, NoValidate: true, Labels: []string{"c07-avc-linear"}, Bound: "linear-time clause, AVC sample: 48/96/192 NAL units or one NAL unit of 48/96/192 bytes, length prefix 1/2/4 bytes"},
+			{Pkg: "websocket", Func: "HarnessC07_WebsocketLinear", TimeFixed: true, Steps: 200000000, NoValidate: true, Labels: []string{"c07-websocket-linear"}, Bound: "linear-time clause, WebSocket reader: one message of 96/192/384 fragments, as many small messages with pings in between, one frame of 96/192/384 bytes; masked or not"},
+			{Pkg: "json", Func: "HarnessC07_JsonLinear", Steps: 200000000, NoValidate: true, Labels: []string{"c07-json-linear"}, Bound: "linear-time clause, JSON+ reader (input delivered whole): a string literal, block comment, line comment or array text of 200/400/800 bytes"},
+			{Pkg: "https/jose/cipher", Func: "HarnessC07_KeyWrapLinear", Steps: 200000000, NoValidate: true, Labels: []string{"c07-keywrap-linear"}, Bound: "linear-time clause, RFC 3394 key wrap / unwrap of 160/320/640 64-bit blocks with a deterministic stand-in block cipher"},
 			{Pkg: "amf0", Func: "HarnessC07_Amf0Enums", Labels: []string{"c07-amf0-enums"}, Bound: "marker.String() over all 256 values"},
 			{Pkg: "json", Func: "HarnessC07_Json", Stall: true, Labels: []string{"c07-json", "c07-json-accepted"}, Bound: "every byte string of 0..5 bytes (thorough 0..7) through NewJsonPlusReader+ReadAll, delivered whole, byte by byte, or split once at every offset"},
 			{Pkg: "rtmp", Func: "HarnessC07_Chunks", Stall: true, Labels: []string{"c07-chunks"}, Bound: "ReadMessage until error over every byte string of 0..12 bytes (thorough 0..16), input chunk size default 128 or symbolic 1..4"},
